@@ -50,7 +50,7 @@ class Amb:
         return sorted(out), accepting
 
     # ------------------------------------------------------------------ EDA
-    def eda(self, K=4, exclude_groups=(), timeout=120, exclude_states=()):
+    def eda(self, K=4, exclude_groups=(), timeout=120, exclude_states=(), exclude_chars=()):
         nfa, pos, follow = self.nfa, self.pos, self.follow
         cand = [p for p in pos if self.group_of[p] not in exclude_groups and p not in exclude_states]
         if not cand:
@@ -65,8 +65,9 @@ class Amb:
         s.add(a[0] == b[0], z3.Or(*[a[0] == p for p in cand]))
         for i in range(K + 1):
             s.add(z3.Or(*[a[i] == p for p in pos]), z3.Or(*[b[i] == p for p in pos]))
+        alphabet = [c for c in UCHARS if c not in exclude_chars]
         for i in range(K):
-            s.add(inset(w[i], UCHARS))
+            s.add(inset(w[i], alphabet))
             for p in pos:
                 cs = nfa.ch[p][0]
                 nxt_a = z3.Or(*[a[i + 1] == t for t in follow[p]]) if follow[p] else z3.BoolVal(False)
